@@ -281,8 +281,8 @@ func c15Request(w *c15World, r, n int) *kmip.RequestMessage {
 		label := "r" + strconv.Itoa(r) + "i" + strconv.Itoa(i)
 		a := c15Action{kind: verifChoose("action", 6)}
 		if a.kind == 1 || a.kind == 5 {
-			a.id = verifNondetString("id", 2)
-			verifAssume(a.id != "")
+			// any identifier, the empty one included (an operation that matched nothing)
+			a.id = verifNondetString("id", 2*verifChoose("idlen", 2))
 		}
 		w.actions[label] = a
 		req.BatchItem = append(req.BatchItem, kmip.RequestBatchItem{Operation: kmip.OperationActivate, RequestPayload: &payloads.ActivateRequestPayload{UniqueIdentifier: label}})
